@@ -494,16 +494,27 @@ func AggQuery(rt *rapid.T, db *model.DB) Select {
 			On: &model.Cond{Or: [][]model.Cmp{{{L: model.Operand{Qual: ref.ID(), Col: "g1"}, Op: "=", R: model.Operand{Qual: r2.ID(), Col: "g1"}}}}}}}
 	}
 	needQual := func(name string) bool { return joined && name == "g1" }
+	// shadow: every column reference is qualified and one grouping column's alias
+	// is the bare name of another grouping column; the qualified GROUP BY
+	// references still say unambiguously which column is meant
+	shadow := rapid.IntRange(0, 5).Draw(rt, "shadow") == 0
 	colRef := func(name string) ColRef {
 		c := ColRef{Name: name}
-		if needQual(name) || rapid.IntRange(0, 2).Draw(rt, "qual") == 0 {
+		if name == "z" {
+			c.Qual = q.Joins[0].Table.ID() // t1's own column
+		} else if shadow || needQual(name) || rapid.IntRange(0, 2).Draw(rt, "qual") == 0 {
 			c.Qual = ref.ID()
 		}
 		return c
 	}
 	// grouping columns
 	ng := rapid.SampledFrom([]int{0, 0, 1, 1, 2, 2, 3}).Draw(rt, "ngroup")
-	gcols := rapid.Permutation([]string{"g1", "g2", "n", "g3"}).Draw(rt, "gperm")[:ng]
+	gpool := []string{"g1", "g2", "n", "g3"}
+	if joined {
+		gpool = append(gpool, "z")
+	}
+	gcols := rapid.Permutation(gpool).Draw(rt, "gperm")[:ng]
+	shadow = shadow && ng >= 2
 	type item struct {
 		it  SelItem
 		grp bool
@@ -516,6 +527,11 @@ func AggQuery(rt *rapid.T, db *model.DB) Select {
 		if rapid.IntRange(0, 2).Draw(rt, "galias") == 0 {
 			it.Alias = aliases[gi]
 			it.UseAS = rapid.Bool().Draw(rt, "gas")
+		}
+		if shadow && gi == 0 {
+			it.Alias = gcols[1+rapid.IntRange(0, ng-2).Draw(rt, "shadowof")]
+			it.UseAS = rapid.Bool().Draw(rt, "gas2")
+			q.AmbigOK = true
 		}
 		items = append(items, item{it, true})
 	}
@@ -545,7 +561,11 @@ func AggQuery(rt *rapid.T, db *model.DB) Select {
 		if items[i].grp {
 			it := items[i].it
 			var g ColRef
-			switch rapid.IntRange(0, 2).Draw(rt, "gref") {
+			gref := rapid.IntRange(0, 2).Draw(rt, "gref")
+			if shadow {
+				gref = 1
+			}
+			switch gref {
 			case 0:
 				g = ColRef{Name: it.Col.Name} // by name
 			case 1:
@@ -562,6 +582,18 @@ func AggQuery(rt *rapid.T, db *model.DB) Select {
 	}
 	if len(q.GroupBy) > 1 && rapid.Bool().Draw(rt, "gshuffle") {
 		q.GroupBy[0], q.GroupBy[len(q.GroupBy)-1] = q.GroupBy[len(q.GroupBy)-1], q.GroupBy[0]
+	}
+	if rapid.IntRange(0, 3).Draw(rt, "haslimit") == 0 {
+		// the window applies to the aggregated rows, never to the input
+		if rapid.Bool().Draw(rt, "lim") {
+			v := rapid.SampledFrom([]int{0, 1, 1, 2, 3, 5, 100}).Draw(rt, "limit")
+			q.Limit = &v
+		}
+		if q.Limit == nil || rapid.IntRange(0, 2).Draw(rt, "off") == 0 {
+			v := rapid.SampledFrom([]int{0, 1, 1, 2, 4}).Draw(rt, "offset")
+			q.Offset = &v
+		}
+		q.LimitFirst = rapid.Bool().Draw(rt, "limitfirst")
 	}
 	if rapid.IntRange(0, 2).Draw(rt, "haswhere") == 0 {
 		v := model.Int(int64(rapid.SampledFrom([]int{0, 1, 2, 3, 12, 999999}).Draw(rt, "wv")))
